@@ -236,7 +236,6 @@ def processBlock (s : State) (b : BlockAbs) : State × Res :=
   else if s.orphans.any (fun p => p.1.hash == b.hash) then (s, .dup)
   else if !b.sane then (s, .rej)
   else
-    let s : State := { s with evicted := s.evicted.filter (· != b.hash) }
     if !(s.status b.parent).data then (addOrphan s b, .orphan)
     else
       match maybeAccept s b with
@@ -330,6 +329,15 @@ def descTips (s : State) (h : Hash) : List Node :=
   ((inactiveTips s) ++ (match lookup s.idx s.tip with | some n => [n] | none => [])).filter
     (fun t => (ancestors s.idx t.blk.hash).contains h)
 
+/-- the tip `ReconsiderBlock` tries to activate: the named descendant tip, else the most-work one,
+else (no descendant tips) the block itself -/
+def reconsiderTarget (dts : List Node) (node : Node) (choice : Option Hash) : Node :=
+  match choice with
+  | some c => match dts.find? (fun n => n.blk.hash == c) with
+    | some n => n
+    | none => ((maxWorkOf dts).getLast?).getD node
+  | none => ((maxWorkOf dts).getLast?).getD node
+
 /-- `ReconsiderBlock`. btcd takes the LAST descendant tip in map iteration order; `choice` names it
 (`none` = the most-work one). -/
 def reconsider (s : State) (h : Hash) (choice : Option Hash) : State × Bool :=
@@ -343,18 +351,13 @@ def reconsider (s : State) (h : Hash) (choice : Option Hash) : State × Bool :=
       let s := dts.foldl (fun s t =>
         ((t.blk.hash :: ancestors s.idx t.blk.hash).takeWhile (· != h)).foldl
           (fun s x => s.setSt x (fun t => { t with invalidAnc := false })) s) s
-      let rt : Node := match choice with
-        | some c => match dts.find? (fun n => n.blk.hash == c) with
-          | some n => n
-          | none => ((maxWorkOf dts).getLast?).getD node
-        | none => ((maxWorkOf dts).getLast?).getD node
+      let rt : Node := reconsiderTarget dts node choice
       if rt.workSum ≤ s.wsum s.tip then (s, true)
       else
         match getReorgNodes s rt with
         | (s1, detach, attach) =>
           match reorganize s1 detach attach with
-          | (s2, .other) => (s2, true)   -- verification error: "reconsidered and found invalid"
-          | (s2, _) => (s2, true)
+          | (s2, _) => (s2, true)   -- a verification error means "reconsidered and found invalid": nil
 
 /-! ### the machine -/
 
